@@ -23,6 +23,7 @@ MENU = [
     ('use', lambda w: trees.N('para', lines=[w], use=True)),
     ('plain', lambda w: trees.N('para', lines=[w])),
     ('atx', lambda w: trees.N('atx', level=2, text=w, use=True)),
+    ('setext', lambda w: trees.N('setext', level=1, lines=[w], use=True)),
 ]
 CONTS = ['quote', 'ul', 'ol', 'ul2']
 
@@ -101,7 +102,7 @@ def document_order(blocks):
 def set_use_texts(blocks, labels):
     for b, p in trees.walk(blocks):
         if getattr(b, 'use', False):
-            if b.kind == 'para':
+            if b.kind in ('para', 'setext'):
                 b.lines = [use_text(labels)]
             else:
                 b.text = use_text(labels)
